@@ -258,7 +258,17 @@ def r19_5(ctx, S, prog, crate, rule="R19.5"):
                   "the round's size is read after the mode may already have been advanced", ssz.line())
 
 
+def r19_6(ctx, prog, crate):
+    """The threshold's unit: the timer precision that slowest/precision divides by is the smallest non-zero step the
+    timer observed, never the sentinel FineDuration::MAX (a quotient of 0 would keep tuning forever) - clause shared
+    with C11 (R11.3)."""
+    from .C11 import r11_3
+    from .common import Renamed
+    r11_3(Renamed(ctx, "R19.6"), prog, crate)
+
+
 def run(ctx, prog, crate):
+    r19_6(ctx, prog, crate)
     S = Sampling(prog, crate)
     if not ctx.anchor("R19.1", "sampling loop", 1 if S.body is not None and S.loop is not None and S.cond_switch is not None else 0, 1):
         return
